@@ -20,7 +20,13 @@ on one connection from the initial counters.  Same oracle as everywhere (nothing
 datagram within the MTU and decodable); in addition, after EVERY event of every history the connection's sequence
 counters (seq_sending, seq_message, seq_fragment) and the sequence numbers of the queued messages must still be
 members of the ring: SeqNum instances in 1..65535 (0 only while unused) — a counter that silently left the ring is
-reported where it happens, long before a struct.pack can fail."""
+reported where it happens, long before a struct.pack can fail.
+BACKLOGS (histories "backlog"): hundreds of queued messages that do NOT fit into the datagram under construction (bulk
+messages of about half / a third / a whole datagram, or the 260..400 fragments of one large payload) with tiny messages
+queued BEHIND them, before them and in the middle.  Oracle after EVERY build of EVERY history (not only the backlog ones),
+stated as the packer's first-fit rule over the WHOLE queue: once a datagram has been produced, no message that is still
+queued would have fitted into it (payload + accounted overhead within MAX_PAYLOAD_SIZE+2 and fewer than 255 messages) —
+"messages that fit together travel in one datagram" however long the queue is."""
 import struct, binascii, collections
 from harness import lib
 from harness import connsim as S
@@ -69,6 +75,20 @@ def ring_probe(conn):
             if not (1 <= int(k) <= RING):
                 return {"counter": name + " key", "type": type(k).__name__, "value": int(k)}
     return None
+
+
+def queue_probe(log):
+    """probe for packlib.drive: the ring probe, and (side effect) per event the shortest message still queued:
+    log[n] = (queue length, shortest queued payload, its queue position, sequence numbers of the first queued entries)"""
+    def f(conn):
+        q = conn.outgoing_messages
+        if q:
+            pos = min(range(len(q)), key=lambda i: len(q[i].payload))
+            log.append((len(q), len(q[pos].payload), pos, int(q[pos].seq)))
+        else:
+            log.append((0, None, None, None))
+        return ring_probe(conn)
+    return f
 
 
 # ------------------------------------------------------------------ implementation runners
@@ -408,6 +428,7 @@ class Hist:
         self.groups = []          # (first index into sent, count, tick event index): bursts expected in ONE datagram
         self.complete = True      # enough ticks for everything queued to be sent at least once (see boundary())
         self.seq0 = None          # optional [datagram counter, message counter] the connection starts with
+        self.tiny_first = None    # optional ([indices into sent], tick event index): these ride in that tick's datagram
 
     def send(self, payload, retry=0, cb=None):
         self.events.append(("send", payload, retry, cb))
@@ -637,6 +658,45 @@ def gen_histories(run):
         h.tick(acct // (mp - 205) + queued // 255 + (6 if retry == 0 else 12))
         return h
 
+    def backlog(role, mtu, n_bulk, shape, tail, where="behind"):
+        """a BACKLOG: n_bulk queued messages that cannot join the datagram under construction once one / two / three of
+        them are in it (shape "half" / "third" / "whole": bulk messages of about a half / a third / the whole capacity,
+        "frag": ONE payload of n_bulk fragments), and tiny messages (lengths `tail`) queued behind them (where="behind"),
+        in the middle ("middle": after two thirds of the bulk) or both; all in the same tick, retry NONE.  The spare room
+        of every datagram admits the tiny messages, so first-fit over the whole queue puts them into the FIRST datagram."""
+        h = Hist(role, mtu, "backlog")
+        mp = cap(mtu)
+        k = 0
+        tiny_idx = []
+
+        def tinies():
+            nonlocal k
+            for n in tail:
+                tiny_idx.append(len(h.sent))
+                h.send(fill(k, n), 0); k += 1
+        if shape == "frag":
+            fs = 1024 if mp >= 1030 else mp - 6
+            h.send(fill(k, fs * (n_bulk - 1) + r.randrange(1, fs + 1)), 0); k += 1
+            per = 1
+            tinies()
+            claim = fs + 6 + sum(tail) + 5 * (1 + len(tail)) <= mp + 2      # a full fragment leaves room only when it is the 1024 one
+        else:
+            claim = True
+            per = {"half": 2, "third": 3, "whole": 1}[shape]
+            spare = (5 * len(tail) + sum(tail)) * (2 if where == "both" else 1) + r.randrange(0, 6)
+            size = (mp + 2 - 5 * per - spare) // per
+            for i in range(n_bulk):
+                if where in ("middle", "both") and i == (2 * n_bulk) // 3:
+                    tinies()
+                h.send(fill(k, size - (r.randrange(0, 3) if shape != "whole" else 0)), 0); k += 1
+            if where in ("behind", "both"):
+                tinies()
+        h.tick(1)
+        if claim:
+            h.tiny_first = (tiny_idx, len(h.events) - 1)       # these must all be in the datagram of this tick
+        h.tick(n_bulk // per + 4)
+        return h
+
     def long_history(role, mtu, total, per):
         """one connection, initial counters, `total` messages queued (per of them per tick)"""
         h = Hist(role, mtu, "long")
@@ -680,6 +740,21 @@ def gen_histories(run):
             hs.append(tiny(r.choice(["client", "server"]), mtu, r.choice([0, 0, 1, -1]), n, ln))
         per = (mtu - 64) // 5          # how many empty messages the capacity admits (below 255 only for tiny MTUs)
         hs.append(tiny("client", mtu, 0, min(255, per), 0))
+    # backlogs: hundreds of queued messages that do not fit, tiny ones behind / among them
+    bl = [("server", 1500, 300, "half", [10]), ("server", 512, 300, "whole", [0]), ("server", 1096, 330, "third", [2, 0]),
+          ("server", 1500, 270, "frag", [5, 0, 40]), ("server", 1500, 257, "whole", [4]), ("server", 1500, 254, "whole", [4]),
+          ("client", 900, 120, "half", [7, 7])]
+    if run.thorough():
+        bl += [("client", 1500, 330, "half", [0, 3, 1]), ("server", 512, 400, "whole", [0]), ("server", 1096, 390, "third", [2, 0]),
+               ("server", 600, 340, "frag", [1])]
+    for role, mtu, n_bulk, shape, tail in bl:
+        hs.append(backlog(role, mtu, n_bulk, shape, tail, where=r.choice(["behind", "behind", "both"])))
+    for _ in range(24 if run.thorough() else 2):
+        shape = r.choice(["half", "third", "whole", "frag"])
+        n_bulk = r.choice([255, 256, 257, 258, 300, r.randrange(200, 420)])
+        role = "server" if n_bulk // {"half": 2, "third": 3, "whole": 1, "frag": 1}[shape] > 180 else r.choice(["client", "server"])
+        hs.append(backlog(role, r.choice(quick_mtus), n_bulk, shape, [r.choice([0, 1, 2, 9]) for _ in range(r.choice([1, 2, 4]))],
+                          where=r.choice(["behind", "middle", "both"])))
     for _ in range(80 if run.thorough() else 20):
         hs.append(mixed(r.choice(["client", "server"]), r.choice(quick_mtus), r.choice([0, 0, 0, 1, -1])))
     # Packet.setMTU on a live connection: lowered and raised, extremes and random pairs, all retry modes
@@ -716,7 +791,8 @@ def reassemble(msgs):
 
 def check_history(run, h):
     """correspondence + oracle for one history; returns False when a violation was recorded"""
-    res = P.drive(run, h.role, h.events, key=7, mtu=h.mtu, every=len(h.events) < 120, seq0=h.seq0, probe=ring_probe)
+    qlog = []
+    res = P.drive(run, h.role, h.events, key=7, mtu=h.mtu, every=len(h.events) < 120, seq0=h.seq0, probe=queue_probe(qlog))
     case = {"role": h.role, "mtu": h.mtu, "kind": h.label, "events": P.short_events(h.events)[:40],
             "n_events": len(h.events)}
     if h.seq0 is not None:
@@ -736,6 +812,7 @@ def check_history(run, h):
     limit = h.mtu - 28
     emitted = []            # (event index, seq, type, payload)
     nontrivial = False
+    requeues = any(e[0] == "send" and e[2] == -1 for e in h.events)
     for n, (ev, raws, errs) in enumerate(zip(h.events, res["raws"], res["errs"])):
         run.evaluations += 1
         if ev[0] == "setmtu":
@@ -768,6 +845,34 @@ def check_history(run, h):
                 emitted.append((n, s, t, p))
             if len(d) >= limit - 5 or len(dec["msgs"]) == 255:
                 nontrivial = True
+        if len(raws) == 1 and ev[0] in ("ctick", "stick") and n < len(qlog) and qlog[n][0] and not requeues:
+            # first-fit over the WHOLE queue: nothing that is still queued would have fitted into the datagram just produced
+            # (judged where the queue after the tick is what the build left: a RETRY_ON_TIMEOUT message that timed out in this
+            # tick is queued again AFTER the build)
+            run.evaluations += 1
+            dec = P.decode_datagram(raws[0], kb)
+            cnt = len(dec["msgs"])
+            used = sum(len(p) for _, _, p in dec["msgs"])
+            qn, shortest, pos, qseq = qlog[n]
+            if cnt < 255 and shortest + overhead(cnt + 1) + used <= mp + 2:
+                run.oracle_violation("queued-message-would-have-fitted",
+                                     dict(case, event=n, datagram_messages=cnt, datagram_payload_bytes=used,
+                                          capacity=mp + 2, queued=qn, fitting_length=shortest, queue_position=pos,
+                                          message_seq=qseq, datagram_length=len(raws[0])), "_build_packet_impl")
+                return False
+            if qn > 255:
+                nontrivial = True
+                run.count("builds_with_backlog_over_255")
+    if h.tiny_first is not None:
+        idxs, evi = h.tiny_first
+        here = collections.Counter(p for n, s, t, p in emitted if n == evi)
+        wantt = collections.Counter(h.sent[i][0] for i in idxs)
+        run.evaluations += 1
+        if wantt - here:
+            run.oracle_violation("fit-together-split",
+                                 dict(case, event=evi, lengths=[len(p) for p in wantt.elements()], datagrams=len(res["raws"][evi]),
+                                      carried=sum((wantt & here).values()), behind_backlog=True), "_build_packet_impl")
+            return False
     # accounting: multiset of application payloads emitted vs queued
     got = collections.Counter(reassemble([(s, t, p) for _, s, t, p in emitted]))
     want = collections.Counter(p for p, _ in h.sent)
